@@ -77,6 +77,10 @@ def near_misses(rng, valid):
         out.append(('random<q', h32(rng.randrange(q))))
     for _ in range(10):
         out.append(('random253', h32(rng.getrandbits(253))))
+    # needles: strings failing exactly one decoding check, placed where a weaker-looking replacement of that check
+    # ("the result is on the curve anyway") would let them through; computed by solving for them (pymodel.needles_decode)
+    for c, sv in M.needles_decode(rng):
+        out.append(('needle:' + c, h32(sv)))
     return out
 
 
@@ -1091,6 +1095,25 @@ def gen_C13(rng, tier):
             for op in ('neg', 'dbl'):
                 cases.append(Case('g.%s a=%s pre=%s post=enc' % (op, ea, pre), builds=R, cls='%s:pre-%s' % (op, pre), oracle=oenc, canon=gcanon))
             cases.append(Case('g.scalarmul a=%s bits=1011 pre=%s post=enc' % (ea, pre), builds=R, cls='scalarmul:pre-%s' % pre, oracle=oenc, canon=gcanon))
+    # the SAME element held in its two coset representatives (x, y) and (-x, -y), and as a projectively different
+    # native result: equality / inequality gadgets must see one element
+    def osat(want_sat, want_out=None):
+        def orc(out, bld):
+            f = gfields(out)
+            if f.get('sat') != want_sat:
+                return 'equality gadgets on two representatives of one element: expected sat=%s' % want_sat
+            if want_out is not None and f.get('out') != want_out:
+                return 'equality gadgets on two representatives of one element: expected out=%s' % want_out
+            return None
+        return orc
+    for s_ in [x for x in encs if x != 0][:4 if tier == 'quick' else 20] + [0]:
+        P = M.decode(s_)
+        other = 'bxy=%s,%s' % (h32((q - P[0]) % q), h32((q - P[1]) % q))
+        same = 'bxy=%s,%s' % (h32(P[0]), h32(P[1]))
+        for cls, b in (('other-rep', other), ('same-rep', same)):
+            cases.append(Case('g.iseq a=%s %s' % (h32(s_), b), builds=R, cls='iseq:' + cls, oracle=osat('1', '1'), canon=gcanon))
+            cases.append(Case('g.enforce_eq a=%s %s' % (h32(s_), b), builds=R, cls='enforce_eq:' + cls, oracle=osat('1'), canon=gcanon))
+            cases.append(Case('g.enforce_neq a=%s %s' % (h32(s_), b), builds=R, cls='enforce_neq:' + cls, oracle=osat('0'), canon=gcanon))
     for _ in range(8 if tier == 'quick' else 80):
         (ca, ma), (cb, mb) = rng.choice(els), rng.choice(els)
         for op in ('add', 'sub', 'add_ref', 'sub_ref', 'add_asg', 'sub_asg', 'add_const', 'sub_const', 'add_const_asg', 'sub_const_asg', 'iseq', 'select'):
